@@ -432,6 +432,9 @@ struct SctpInner {
     advanced_peer_ack_tsn: AtomicU32,
     forward_tsn_pending: AtomicBool,
     forward_tsn_streams: Mutex<Vec<(u16, u16)>>,
+    // When the last FORWARD-TSN the peer has not confirmed yet was sent (RFC 3758 3.5 A5: a timer
+    // must be running while a FORWARD-TSN is outstanding, otherwise a lost one is never repaired).
+    forward_tsn_sent_at: Mutex<Option<Instant>>,
     has_pr_sctp: AtomicBool,
 
     // Tail Loss Probe (TLP, RFC 8985-inspired): when in-flight data is
@@ -885,6 +888,7 @@ impl SctpTransport {
             advanced_peer_ack_tsn: AtomicU32::new(0),
             forward_tsn_pending: AtomicBool::new(false),
             forward_tsn_streams: Mutex::new(Vec::new()),
+            forward_tsn_sent_at: Mutex::new(None),
             has_pr_sctp: AtomicBool::new(false),
             last_send_or_ack: Mutex::new(Instant::now()),
             tlp_probe_sent: AtomicBool::new(false),
@@ -1185,7 +1189,16 @@ impl SctpInner {
                 self.maybe_send_tlp_probe(now);
             }
 
+            // 6. Unconfirmed FORWARD-TSN: send it again after an RTO
+            let fwd_timeout = match *self.forward_tsn_sent_at.lock() {
+                Some(t) => (t + Duration::from_secs_f64(rto_snapshot))
+                    .saturating_duration_since(now)
+                    .max(Duration::from_millis(1)),
+                None => Duration::from_secs(3600),
+            };
+
             let sleep_duration = rto_timeout
+                .min(fwd_timeout)
                 .min(heartbeat_timeout)
                 .min(t1_timeout)
                 .min(sack_timeout)
@@ -1240,6 +1253,16 @@ impl SctpInner {
                     // because they might be close.
                     if let Err(e) = self.handle_timeout().await {
                         trace!("SCTP handle timeout error: {}", e);
+                    }
+
+                    // A FORWARD-TSN the peer has not confirmed within an RTO was probably lost
+                    let fwd_due = matches!(*self.forward_tsn_sent_at.lock(),
+                        Some(t) if Instant::now() >= t + Duration::from_secs_f64(rto_snapshot));
+                    if fwd_due {
+                        self.forward_tsn_pending.store(true, Ordering::SeqCst);
+                        if let Err(e) = self.transmit().await {
+                            trace!("SCTP transmit error on FORWARD-TSN timer: {}", e);
+                        }
                     }
 
                     // Check Heartbeat Timer
@@ -1929,6 +1952,7 @@ impl SctpInner {
                     self.forward_tsn_pending.store(true, Ordering::SeqCst);
                 } else {
                     self.forward_tsn_streams.lock().clear();
+                    *self.forward_tsn_sent_at.lock() = None;
                 }
             }
 
@@ -2442,6 +2466,11 @@ impl SctpInner {
             }
             self.schedule_sack_immediate();
 
+            self.timer_notify.notify_one();
+        } else {
+            // RFC 3758 3.6: an out-of-date FORWARD-TSN may mean that our previous SACK
+            // was lost - answer it, or the peer repeats it for ever.
+            self.schedule_sack_immediate();
             self.timer_notify.notify_one();
         }
 
@@ -3608,6 +3637,7 @@ impl SctpInner {
                 && let Some(fwd_chunk) = self.create_forward_tsn_chunk()
             {
                 chunks_to_send.push(fwd_chunk);
+                *self.forward_tsn_sent_at.lock() = Some(Instant::now());
             }
         }
 
